@@ -59,6 +59,7 @@ def handleLine (line : String) : String :=
     | "c18" => C18.handle args obs
     | "c12t" => C12.handleTokens args obs
     | "c12" => C12.handleLimit args obs
+    | "c12e" => C12.handleEmfile args obs
     | "c13" => C12.handleShutdown args obs
     | "c19s" => C19.handleSet args obs
     | "c19w" => C19.handleWriter args obs
